@@ -246,6 +246,8 @@ def _lo_job(job):
                     exp = w * base
             if exp is not None and not O.same(got, exp):
                 bad.append((pid, j, "row differs from the parton model: " + O.diff_text(got, exp)))
+    for t in O.tolerance_findings(proj, op):
+        bad.append((0, 0, "the weights reach the operator through a tolerance test: " + t))
     return ("cmp", n, bad[:3], len(bad))
 
 
